@@ -11,7 +11,7 @@ from .common import SCtx, sctx
 from .c04 import model
 
 PROP = "C05"
-FLOORS = {"C05.R1": 25, "C05.R2": 7, "C05.R3": 7, "C05.R4": 5}
+FLOORS = {"C05.R1": 25, "C05.R2": 7, "C05.R3": 7, "C05.R4": 5, "C05.R5": 1}
 META = {
     "explanation": "Per node class (every subclass of BaseRef, discovered from the class table): every slot that _get_value evaluates "
                    "through _mk_value -- directly or element-wise -- is traversed by the _get_dependencies that applies to the class "
@@ -303,3 +303,10 @@ def check(col: Collector):
         _accumulator(col)
     with col.rule():
         _structure(col)
+    # round 7: the dependency set of a task is fixed when it is built: replacing the expression of a live task in place leaves the old set
+    from . import c01
+    from .common import shared, construct_tag
+    with col.rule():
+        shared(col, "C05.R5", [c01._set_value_protocol], select=lambda o: construct_tag(o) in ("unregister-existing-definition", "every-path-replaces-the-definition"),
+               why="a definition replaced by swapping task.expr keeps the dependency set of the old expression: locations read only by the "
+                   "new one are not reported")
